@@ -302,6 +302,72 @@ theorem gf_end_first_in_after_keeps_main (res : Nat → String) (main : Pipe) (a
   subst hopen
   simp [hd]
 
+/-! ## Flow synthesis (`flow` empty ⇒ the filters in declaration order) -/
+
+private def kindsEx' : List (String × List String) := [("K", ["r1", "r2"])]
+
+/-- Regenerated skeleton of `Pipeline.reload` / `GlobalFilter.reload` (by role: FLOW = the local stored into
+`p.flow`, RAW = range variable over `p.spec.Filters`, SPEC = `filters.NewSpec(…, RAW)`): FLOW starts as the
+spec's flow, is replaced by an empty slice when that is empty, and gets exactly one node
+`FlowNode{FilterName: SPEC.Name()}` per filter spec, in the loop over the filter specs, exactly when the spec's
+flow is empty — there is no other write; `p.flow = FLOW` follows the loop; the binding loop binds each non-END
+node to the instance registered under its `FilterName` (instances are registered under their own name);
+a GlobalFilter creates its before / after pipeline exactly when that part's flow is non-empty. This is what
+`effFlow` / `kindOf` / `gfPipe` mirror. -/
+theorem reload_skeleton_facts :
+    Gen.FactsC02.extractionFailed = false ∧
+    Gen.FactsC02.reloadFlowWrites =
+      ["FLOW := P.spec.Flow",
+       "if len(FLOW) == 0 { FLOW = make([]FlowNode, 0, len(P.spec.Filters))",
+       "range P.spec.Filters { if len(P.spec.Flow) == 0 { FLOW = append(FLOW, FlowNode{FilterName: SPEC.Name()})"] ∧
+    Gen.FactsC02.reloadStoreAfterLoop = true ∧
+    Gen.FactsC02.reloadBinding = ["if NODE.FilterName != BuiltInFilterEnd { NODE.filter = P.filters[NODE.FilterName] }"] ∧
+    Gen.FactsC02.reloadRegistersByName = 1 ∧
+    Gen.FactsC02.gfReloadCreates =
+      ["len(GF.spec.BeforePipeline.Flow) != 0 => CreateAndUpdateBeforePipelineForSpec",
+       "len(GF.spec.AfterPipeline.Flow) != 0 => CreateAndUpdateAfterPipelineForSpec"] := by
+  decide
+
+/-- the synthesised flow is one plain node per filter, in declaration order -/
+theorem effFlow_synth (fs : List (String × String)) : effFlow ⟨fs, []⟩ = fs.map synthNode := by
+  simp [effFlow, synthNode]
+
+/-- **The synthesised flow validates**: a spec without a flow is accepted as soon as its filter specs are
+(`validateFilters`), and so is the same spec with the synthesised flow written out explicitly. -/
+theorem synth_flow_validates (kinds : List (String × List String)) (fs : List (String × String))
+    (h : validateFilters kinds fs [] = true) :
+    validate kinds ⟨fs, []⟩ = true ∧ validate kinds ⟨fs, fs.map synthNode⟩ = true := by
+  have hf := (validateFilters_iff kinds fs []).mp h
+  have hE : ∀ f ∈ fs, f.1 ≠ END := fun f hm => (hf.1 f hm).2.2.1
+  obtain ⟨vt, hvt⟩ := scan_synth fs kinds fs hE (fun f hm => lookup_self_of_mem fs f hm)
+  exact ⟨by simp [validate, h, scan], by simp [validate, h, hvt]⟩
+
+/-- **The synthesised flow executes every filter exactly once, in declaration order**: with a validated
+filter list and no flow, a request whose filters all return `""` runs node k = filter k for k = 0 … n-1 (each
+index once, increasing), each under its own name, bound to its own instance, in the default namespace; the
+result is `""`. (A non-empty result ends the pipeline there: the synthesised nodes have no `jumpIf` —
+`nothing_after_end`.) -/
+theorem synth_flow_runs_every_filter_once_in_order (kinds : List (String × List String))
+    (fs : List (String × String)) (h : validateFilters kinds fs [] = true)
+    (res : Nat → String) (hres : ∀ k, res k = "") :
+    handle res (mkPipe ⟨fs, []⟩) = ("", synthStats (kindOf fs) fs 0) ∧
+    (handle res (mkPipe ⟨fs, []⟩)).2.map (·.filter) = fs.map (·.1) ∧
+    (handle res (mkPipe ⟨fs, []⟩)).2.map (·.idx) = List.range fs.length := by
+  have hf := (validateFilters_iff kinds fs []).mp h
+  have hE : ∀ f ∈ fs, f.1 ≠ END := fun f hm => (hf.1 f hm).2.2.1
+  have hl := loop_synth (kindOf fs) res hres fs 0 "" [] hE
+  have hh : handle res (mkPipe ⟨fs, []⟩) = ("", synthStats (kindOf fs) fs 0) := by
+    simp only [handle, mkPipe, effFlow_synth, doHandle, hl, List.nil_append]
+    by_cases e : fs = [] <;> simp [e]
+  refine ⟨hh, ?_, ?_⟩
+  · rw [hh]; exact synthStats_filters _ fs 0
+  · rw [hh]; simp only [synthStats_idx _ fs 0]; exact (List.range_eq_range' (n := fs.length)).symm
+
+/-- non-vacuity: three validated filters, no flow -/
+example : validateFilters kindsEx' [("v", "K"), ("a", "K"), ("p", "K")] [] = true ∧
+    (handle (fun _ => "") (mkPipe ⟨[("v", "K"), ("a", "K"), ("p", "K")], []⟩)).2.map (fun s => (s.idx, s.filter)) =
+      [(0, "v"), (1, "a"), (2, "p")] := by decide
+
 /-! ## Validation is needed; the repaired `filterAlias` is needed -/
 
 private def kindsEx : List (String × List String) := [("K", ["r1", "r2"])]
